@@ -12,7 +12,7 @@ CASE_TIMEOUT_S = 60   # bundles hold up to 22k strings (~1 s); a single hanging 
 RULE = ('language space: all strings of <=L tokens over a 28-token alphabet (BFS by length, bundled by 2-token prefix); '
         'mutation space: delete / insert any token / swap neighbours / duplicate at every character position of every '
         'valid string of the C01 level<=1 space; pumping: every <=3-token string with each token repeated 1..8 times; '
-        'deferred validation: 13 slots (incl. global rules on absent residues, termini, with an isotope label) x 27 unresolvable values x 6 calls; non-trivial = contains a bracket or separator '
+        'deferred validation: 13 slots (incl. global rules on absent residues, termini, with an isotope label) x 36 unresolvable values x 6 calls; non-trivial = contains a bracket or separator '
         'token (language), any mutant (mutation)')
 ASSUMPTIONS = ['"an error" = any ValueError subclass (all peptacular errors derive from ValueError)',
                'is_sequence_valid must never raise, must be False for rejected text and True for text that parses to a single-chain annotation',
@@ -25,7 +25,10 @@ NONTRIV = set('[](){}<>?-+/^@#|:,.\\')
 CORPUS_MUST_RAISE = ['Foo', 'U:99999', 'UNIMOD:xyz', 'M:notaname', 'X:99999', 'R:AA0037', 'G:G00001', 'Glycan:Foo',
                      'Obs:abc', 'INFO:x', 'a|b', 'MOD:99999', 'Formula:Zz2', 'INFO:a|Foo',
                      # a prefix with nothing (or only a sign) behind it
-                     'U:', 'UNIMOD:', 'M:', 'PSI-MOD:', 'X:', 'XLMOD:', 'R:', 'G:', 'GNO:', 'Obs:', 'U:+', 'Obs:-', 'U: 35']
+                     'U:', 'UNIMOD:', 'M:', 'PSI-MOD:', 'X:', 'XLMOD:', 'R:', 'G:', 'GNO:', 'Obs:', 'U:+', 'Obs:-', 'U: 35',
+                     # a formula with unreadable characters before or between well-formed terms
+                     'Formula:2C', 'Formula:xC2', 'Formula:c2H4O', 'Formula:C2 H4', 'Formula:C2+H', 'Formula:C2H4ss',
+                     'Formula:xH0', 'Glycan:xHex', 'Glycan:Hex Hex']
 # macro tokens: whole notation elements, so that short sequences reach well-formed groups followed by one odd element
 MACRO = ['PEK', 'K', '[1]', '^2', '/2', '[+Na+]', '-', '?', '(', ')', '<13C>', '<[1]@K>', '{1}', '+', '//', '[Oxidation]',
          '^', '/', '\\\\', '[']
